@@ -39,6 +39,7 @@ REQUIRED = ["imports", "children()/parents() calls compared with the model", "re
             "shortcut relatives (level 1 and level 2 of one feature) returned once for level=None",
             "wide: features with > 1000 direct children compared at levels 1/2/None",
             "wide: level-2 relatives reached through a child numbered >= 1000 (file order) compared",
+            "wide: level-2 relatives reached through a child ranked >= 1000 by id compared",
             "wide: nested loops over > 1000 children, one or two inner generators each",
             "interleaved: generators consumed while another generator of the same FeatureDB was alive",
             "interleaved: nested loops with >= 2 outer items and a non-empty inner result",
@@ -190,7 +191,8 @@ def one_import(ctx, case, oi, order, rel, lower, upper):
         for x in byid:
             if len(rel.children(x, 1)) > 1000:
                 kids = [nodes[i]["id"] for i in full_order if x in nodes[i]["parents"]]
-                late2[x] = set().union(*[rel.children(t, 1) for t in kids[1000:]])
+                late2[x] = (set().union(*[rel.children(t, 1) for t in kids[1000:]]),
+                            set().union(*[rel.children(t, 1) for t in sorted(kids)[1000:]]))
         for x in byid:
             arg = x
             if q.random() < 0.25:
@@ -234,7 +236,9 @@ def one_import(ctx, case, oi, order, rel, lower, upper):
                         ctx.mon("wide: features with > 1000 direct children compared at levels 1/2/None")
                         if level == 2:
                             ctx.mon("wide: level-2 relatives reached through a child numbered >= 1000 (file order) compared",
-                                    len(late2[x]))
+                                    len(late2[x][0]))
+                            ctx.mon("wide: level-2 relatives reached through a child ranked >= 1000 by id compared",
+                                    len(late2[x][1]))
         # -- several generators of this FeatureDB alive at once ------------------------------------------------
         if not interleaved(ctx, case, db, q, rel, byid, order, text):
             return None
